@@ -76,9 +76,15 @@ def plan(tier, seed):
     # of the conformation' at once (convergence, normalisation) would couple the two
     bigpairs = [(0, 1)] if tier == 'quick' else [(0, 1), (0, 4), (2, 1), (3, 1), (5, 1), (0, 5), (2, 3)]
     shards += [[dict(a=i, b=j, sep=100.0, axis='x', order=o, lib='big')] for i, j in bigpairs for o in ((0,) if tier == 'quick' else (0, 1))]
+    # parts with several conformations: alternate locations labelled with letters in one part and with digits (or not at all) in the
+    # other; atom serial numbers of the two parts distinct or both starting at 1
+    for i in range(len(MULTI)):
+        for j in range(len(MULTI)):
+            if MULTI[i]['t'] == 'c08' or MULTI[j]['t'] == 'c08':
+                shards.append([dict(a=i, b=j, sep=80.0, axis='x', order=o, lib='multi', serials=sr) for o in (0, 1) for sr in ('distinct', 'overlap')])
     return dict(shards=shards, exhaustive=True,
                 rule=('parts: %d library entries; unions of every ordered pair (A=B included) at nearest-atom separations %s A along '
-                      'axes %s, B first or second in the file, joined with TER and (exposed pairs, windows) by plain concatenation; whole reference files next to 2-3 copies of another one (100 A). non-trivial = distinct unions in which both parts carry at least one '
+                      'axes %s, B first or second in the file, joined with TER and (exposed pairs, windows) by plain concatenation; whole reference files next to 2-3 copies of another one (100 A); multi-conformation parts (letter / digit / blank alt-loc labels, distinct or overlapping serials). non-trivial = distinct unions in which both parts carry at least one '
                       'group with a determinant or a non-zero desolvation term') % (len(ps), list(seps), list(axes)),
                 bounds=dict(parts=len(ps), separations=list(seps), axes=list(axes)),
                 samples=[dict(a=ps[0], b=ps[2], sep=1001.0, axis='x', order=0)])
@@ -163,7 +169,16 @@ def whole_part(d, seed):
     return out.translate(gen.seed_offset(seed))
 
 
+MULTI = [dict(t='c08', d=dict(kind='alt', layout=[('A', 'ASP'), ('B', 'ASPs')])), dict(t='c08', d=dict(kind='alt', layout=[('1', 'ASP'), ('2', 'ASPs')])),
+         dict(t='c08', d=dict(kind='alt', layout=[('A', 'ASP'), ('B', 'ALA'), ('C', 'ASPs')], lys=[('B', 'LYSs'), ('C', 'LYS')])),
+         dict(t='c08', d=dict(kind='alt', layout=[(' ', 'ASP'), ('2', 'ASPs')])), corpus.pair_desc('HIS', 'GLU', 3.0, 'mid'),
+         corpus.cluster_desc(('GLU', 'GLU', 'HIS'), 'star', 3.0, 'mid')]
+
+
 def build_part(d, seed):
+    if d['t'] == 'c08':
+        from . import c08
+        return c08.build(d['d'], seed)
     if d['t'] == 'whole':
         return whole_part(d, seed)
     if d['t'] == 'ligand':
@@ -178,6 +193,8 @@ def run_case(case, ctx, acc):
               corpus.cutout_desc('4DFR', 'A', 26, 9.0)]
     if case.get('lib') == 'big':
         ps = BIG
+    if case.get('lib') == 'multi':
+        ps = MULTI
     opts = ()
     if case.get('cfg'):
         import os
@@ -196,7 +213,7 @@ def run_case(case, ctx, acc):
             a.resnum += 5000
     else:
         sb = lower_chains(sb)
-    sb = place(sa, sb, case['sep'], case['axis']).renumber_serials(5000)
+    sb = place(sa, sb, case['sep'], case['axis']).renumber_serials(1 if case.get('serials') == 'overlap' else 5000)
     for a in sa.atoms + sb.atoms:
         if not (-999999 <= a.x <= 9999999 and -999999 <= a.y <= 9999999 and -999999 <= a.z <= 9999999):
             raise gen.Skip('outside-coordinate-field')
@@ -235,7 +252,23 @@ def run_case(case, ctx, acc):
             inpart = (lambda g, tag=tag: (resnum_of(g['key']) >= 5000) == (tag == 'B'))
         else:
             inpart = (lambda g, chains=chains: g['key'].split(':')[0] in chains)
-        for name in rp['conformations'] + ['AVR']:
+        # the number of conformations is a property of the whole file: a part with fewer alternate locations than the other one is
+        # completed into the extra conformations, which changes the weights of its average by definition (C08); the average (and
+        # the profiles, which are taken from it) is compared only when both have the same conformations
+        from . import c08
+        part_items = (sa if tag == 'A' else sb).items
+        same_confs = c08.own_conformations(part_items)[0] == c08.own_conformations(items)[0]     # by the reference naming of C08
+        if same_confs and rp['conformations'] != ru['conformations']:
+            v.append(('part-changed-by-distant-part/conformations/%s' % ('span>1000A' if case['sep'] > 990 else 'span<1000A'),
+                      'part %s alone has conformations %s, the union %s' % (tag, rp['conformations'], ru['conformations'])))
+            break
+        if not same_confs:
+            acc.extra['unions_with_different_conformation_sets(average not compared)'] += 1
+        for name in rp['conformations'] + (['AVR'] if same_confs else []):
+            if name not in ru['confs']:
+                v.append(('part-changed-by-distant-part/conformations/%s' % ('span>1000A' if case['sep'] > 990 else 'span<1000A'),
+                          'part %s alone has conformation %s, the union has %s' % (tag, name, ru['conformations'])))
+                break
             part_groups = [g for g in ru['confs'][name]['groups'] if inpart(g)]
             sub = dict(groups=part_groups, chains=[], nc_flag=False)
             d = cmp.diff_conf(rp['confs'][name], sub, tol=1e-9)
@@ -245,6 +278,9 @@ def run_case(case, ctx, acc):
                 break
     qu = mu.get_charge_profile(grid=(0., 14., 1.))
     fu = mu.get_folding_profile(grid=(0., 14., 1.))[0]
+    from . import c08 as _c08
+    if not (_c08.own_conformations(sa.items)[0] == _c08.own_conformations(items)[0] == _c08.own_conformations(sb.items)[0]):
+        qu, fu = [], []
     for i in range(len(qu)):
         if abs(qu[i][1] - qa[i][1] - qb[i][1]) > 1e-9 or abs(qu[i][2] - qa[i][2] - qb[i][2]) > 1e-9:
             v.append(('charge-profile-not-additive', 'pH %s: union %r parts %r + %r' % (qu[i][0], qu[i][1:], qa[i][1:], qb[i][1:])))
